@@ -98,6 +98,40 @@ CLAIMED.update({
 CLAIMED['C14']['text'] += (' Both searches are proved to return at most n_designs designs in non-increasing score order '
                            '(scores in a total order); checked on generated search cases as well.')
 
+CLAIMED.update({
+    'C08': dict(
+        text='Coq theorem (props/C08.v): for any cache structure whose memoising slots are all reset by the control-series '
+             'setter and whose treatment-series setter clears the control series, no history of assignments and reads '
+             'observes a value computed from other inputs than the current ones (induction over histories with a freshness '
+             'invariant); the cache structure is regenerated from tbrmmdiagnostics.py on every run and proved sound by '
+             'computation. All histories of length <= 3 (quick) / <= 4 (thorough) over a 16-symbol alphabet plus random '
+             'histories are run on the real object, every read compared with a fresh object, and with the model.',
+        note='Trusted: Coq kernel + vm_compute; translator target diagcache; kernels deterministic in (x, y, parameters) '
+             '(a value is abstracted to the snapshot of the inputs it was computed from); __repr__ excluded. No axioms.',
+        technique='Rocq/Coq proof (invariant over histories) on a table regenerated by the translator + executed '
+                  'correspondence + direct oracle', ref='DESIGN.md section 5 C08'),
+    'C17': dict(
+        text='Coq theorems (props/C17.v): for the field table and the list of checks regenerated from '
+             'tbrmmdesignparameters.py, construction succeeds exactly on the documented domain (hand-written from the '
+             'docstring, exact rational bounds) and otherwise yields ValueError, never another error; defaults are the '
+             'documented ones. The helper methods are hand-modelled and tied by a boundary grid (each bound with its '
+             'binary64 neighbours, infinities, NaN, wrong types / arity / order) evaluated on the class and on the model '
+             'with exact values; the documented domain is also evaluated independently in Python.',
+        note='Trusted: Coq kernel + vm_compute; translator target params; the bodies of the three helper methods are '
+             'modelled by hand (tied by execution); Python int/float comparison is exact (modelled over Q). No axioms.',
+        technique='Rocq/Coq proof (case analysis per kind of check, composed over the regenerated table) + executed '
+                  'correspondence on a boundary grid + direct oracle', ref='DESIGN.md section 5 C17'),
+    'C20': dict(
+        text='Coq theorems (props/C20.v): the expanded list holds exactly the days covered by some entry, each once, '
+             'independent of order / duplication / overlap; malformed entries, invalid calendar dates and reversed ranges '
+             'reject the whole list with ValueError; day numbers and calendar days correspond one to one over 1900-2199 '
+             '(finite sweep by vm_compute, bound stated). Entry lists built from structured specifications are run through '
+             'find_days_to_exclude + expand_time_windows and the model; expected days from datetime.date.',
+        note='Trusted: Coq kernel + vm_compute; pandas.Timestamp parsing / date_range (modelled; tied by execution). No axioms.',
+        technique='Rocq/Coq proof + finite calendar sweep lifted by forallb_forall + executed correspondence + oracle',
+        ref='DESIGN.md section 5 C20'),
+})
+
 NOT_YET = 'check not built yet in this revision (model under construction; see DESIGN.md section 10)'
 NA = {}
 
